@@ -60,6 +60,8 @@ func main() {
 	listMut := flag.Bool("list-mutants", false, "list registered mutants")
 	flag.Parse()
 	_ = cgKind
+	os.Setenv("PATH", goPath()) // the `go` driver is looked up in this process's PATH
+	os.Unsetenv("GOWORK")
 	if *listMut {
 		for _, m := range mutants {
 			fmt.Printf("%s %s %s rule=%s\n", m.Prop, m.Name, m.File, m.Rule)
